@@ -133,10 +133,13 @@ def cr_steps(case, ctx):
             uri = fp + "::" + "/".join(call["dest"])
         kind = call["fault"]["kind"]
         cm = patched(*CRASHES[kind]) if kind in CRASHES else contextlib.nullcontext()
+        kw = {}
+        if kind == "bad_metadata":
+            kw["metadata"] = {"n_reads": np.int64(123456), "ok": [1, 2]}        # not JSON-serialisable
         try:
             with cm:
                 cooler.create_cooler(uri, gen.bins_frame(table), feeder, ordered=True,
-                                     symmetric_upper=call["symm"], mode=call["mode"])
+                                     symmetric_upper=call["symm"], mode=call["mode"], **kw)
             outcome, err = "ok", ""
         except Exception as ex:
             outcome, err = "error", type(ex).__name__
